@@ -601,14 +601,18 @@ def rand_case(rng, ver, role=0, maxlen=40, flavour=None):
     n = rng.randint(6, maxlen)
     next_t = 1
     explicit = flavour == "ids" or (flavour == "mixed" and rng.random() < 0.2)
-    p_close = {"errors": 0.04}.get(flavour, 0.012)
-    p_badack = {"errors": 0.25}.get(flavour, 0.04)
+    p_close = {"errors": 0.04}.get(flavour, 0.006)
+    p_badack = {"errors": 0.25}.get(flavour, 0.02)
     if flavour == "wrap":
         ops.append([12, rng.choice([65533, 65533, 65532, 65534] + ([65535] if rng.random() < 0.1 else []))])
         s.step(ops[-1])
     kinds = {"window": [1, 1, 1, 5, 5, 3, 2], "qos2": [2, 2, 2, 2, 1], "ids": [1, 2, 3, 4, 1, 2],
              "stream": [7, 7, 1, 3, 6, 2, 5], "wrap": [1, 1, 2, 3], "errors": [1, 2, 3, 5, 7, 6],
              "mixed": [1, 1, 2, 2, 3, 4, 5, 6, 7]}[flavour]
+    if role == 0:
+        # a server never sees the SUBACK/UNSUBACK (its dispatcher ignores them): such an entry jams the
+        # in-flight queue for good, keep them rare on that side
+        kinds = [k for k in kinds if k not in (3, 4)] * 6 + [3, 4]
     while len(ops) < n:
         r = rng.random()
         pend = s.pending()
@@ -774,7 +778,7 @@ SEEDS = [
 
 def gen_all(rng, ver, role=0, exh_len=6, exh_limit=None, n_random=8000, n_qos2=800):
     cases = list(SEEDS) if role == 0 else [c.replace(",0;", ",%d;" % role, 1) for c in SEEDS]
-    cases += exhaustive(ver, exh_len, role=role, limit=exh_limit, rng=rng)
+    cases += exhaustive(ver, exh_len, role=role, limit=exh_limit, rng=rng, kinds=(1, 2, 5) if role == 0 else (1, 2, 3))
     cases += qos2_orders(rng, ver, role, n_qos2)
     cases += [rand_case(rng, ver, role) for _ in range(n_random)]
     return cases
